@@ -10,7 +10,6 @@
 * `c12_pairs(ctx)` is the entry point used by the lead's c12.py.
 """
 import json
-import multiprocessing
 import os
 import random
 import subprocess
@@ -49,42 +48,41 @@ class _Repo:
 
 
 def _build_child(args):
+    """one configuration, with its own environment for the cargo process (no fork of this process: the
+    environment is passed to the subprocess)"""
     repo, variant = args
     feats, release, rustflags, env, tag = VARIANTS[variant]
-    for k in [k for k in os.environ if k.startswith("CARGO_PROFILE_") or k in ("RUSTFLAGS", "CARGO_ENCODED_RUSTFLAGS")]:
-        del os.environ[k]
-    os.environ.update(FAST_ENV)
-    os.environ.update(env)
+    e = dict(FAST_ENV)
+    e.update(env)
     if rustflags:
-        os.environ["RUSTFLAGS"] = rustflags
-    else:
-        os.environ.pop("RUSTFLAGS", None)
+        e["RUSTFLAGS"] = rustflags
+    drop = lambda k: k.startswith("CARGO_PROFILE_") or k in ("RUSTFLAGS", "CARGO_ENCODED_RUSTFLAGS")
     t0 = time.time()
-    path, out = common.cargo_build_bin(_Repo(repo), "layout", features=feats, release=release, extra_tag=tag)
+    path, out = common.cargo_build_bin(_Repo(repo), "layout", features=feats, release=release, extra_tag=tag, env=e, env_drop=drop)
     return variant, path, out[-6000:], round(time.time() - t0, 1)
 
 
 def build_variants(ctx, variants):
-    """Build several configurations concurrently (each in a forked child so that each has its own
-    environment).  Returns {variant: path}; raises on a build failure (machinery, or the mutant does
-    not compile against the harness — never a verdict)."""
+    """Build several configurations concurrently.  Returns {variant: path}; raises on a build failure
+    (machinery, or the mutant does not compile against the harness — never a verdict)."""
+    from concurrent.futures import ThreadPoolExecutor
     variants = list(variants)
     res = {}
-    mp = multiprocessing.get_context("fork")
-    with mp.Pool(min(len(variants), 4), maxtasksperchild=1) as pool:
-        for variant, path, out, secs in pool.imap_unordered(_build_child, [(ctx.repo, v) for v in variants]):
-            if not path:
-                pr = common.pristine_copy(ctx.repo)
-                if pr is not None:
-                    v2, p2, o2, _ = _build_child((pr, variant))
-                    if p2:
-                        ctx.oblige("corr:harness-layout-builds-against-working-tree", False, "build error")
-                        ctx.defer_nfi("the layout harness (variant %s) no longer builds against the working tree of %s although it builds "
-                                      "against its HEAD: a public item the property talks about was removed or changed.\n%s" % (variant, ctx.repo, out[-2500:]))
-                        raise common.HarnessBuildChanged()
-                raise RuntimeError("harness build failed (bin layout, variant %s):\n%s" % (variant, out))
-            res[variant] = path
-            ctx.notes.append("built layout[%s] in %.1fs" % (variant, secs))
+    with ThreadPoolExecutor(max_workers=min(len(variants), 4)) as ex:
+        results = list(ex.map(_build_child, [(ctx.repo, v) for v in variants]))
+    for variant, path, out, secs in results:
+        if not path:
+            pr = common.pristine_copy(ctx.repo)
+            if pr is not None:
+                v2, p2, o2, _ = _build_child((pr, variant))
+                if p2:
+                    ctx.oblige("corr:harness-layout-builds-against-working-tree", False, "build error")
+                    ctx.defer_nfi("the layout harness (variant %s) no longer builds against the working tree of %s although it builds "
+                                  "against its HEAD: a public item the property talks about was removed or changed.\n%s" % (variant, ctx.repo, out[-2500:]))
+                    raise common.HarnessBuildChanged()
+            raise RuntimeError("harness build failed (bin layout, variant %s):\n%s" % (variant, out))
+        res[variant] = path
+        ctx.notes.append("built layout[%s] in %.1fs" % (variant, secs))
     return res
 
 
